@@ -333,7 +333,7 @@ class C14(Spec):
     prop = "C14"
     coq_targets = ["Props/C14.vo"]
     prop_module = "Props.C14"
-    theorems = ["C14_lex_total_partial", "C14_refuted_to_rust_unbounded_recursion_on_recursive_untagged_type",
+    theorems = ["C14_lex_total_partial", "C14_parse_total_partial", "C14_safe_means", "C14_refuted_to_rust_unbounded_recursion_on_recursive_untagged_type",
                 "C14_refuted_resolver_unbounded_recursion_on_cyclic_import"]
     MODEL_OPS = {3303}
     builds = [("default", "dev"), ("default", "release"), ("protobuf", "dev")]
@@ -343,8 +343,10 @@ class C14(Spec):
                   "stage incl. error kind and token position, and is compared on every ASCII input (non-ASCII inputs: char::is_numeric "
                   "is outside the model, comparison vacuous, oracle still applied). Theorems: PARTIAL -- the tokenizer model never "
                   "returns an error and panics only with the unclosed-comment panic! or the i32 overflow of the nesting counter; "
-                  "vm_compute witnesses of the two divergences; "
-                  "C14_parse_total (fuel sufficiency of the parser) is NOT proved: fuel exhaustion would show in the tie as answer -3.")
+                  "C14_parse_total_partial: tags, SIZE, object identifiers, IMPORTS and ENUMERATED never panic and never run out of "
+                  "fuel on any token list; vm_compute witnesses of the two divergences; "
+                  "fuel sufficiency of the mutually recursive type grammar and of the module loop is NOT proved: fuel exhaustion would "
+                  "show in the tie as answer -3.")
     rule = ("valid modules (the C07 generator, nesting <= 5, and hand-written ones) mutated by 1..4 character/token deletions, "
             "insertions (ASCII, control and non-ASCII characters; the ASN.1 vocabulary), swaps, replacements, duplications and "
             "truncations; token soups from the ASN.1 vocabulary (bare and behind a module header); the unmutated modules. "
